@@ -218,6 +218,52 @@ fn handle_type(repo: &str, req: &Value, global: &Value) -> Result<Value, String>
     }))
 }
 
+/// R12: a constant array of string literals is extracted as a Seq-valued spec constant plus an opaque
+/// exec accessor whose contract states that it returns exactly that table.
+fn handle_strtable(repo: &str, req: &Value) -> Result<Value, String> {
+    let file = req["file"].as_str().ok_or("strtable: missing file")?;
+    let name = req["name"].as_str().ok_or("strtable: missing name")?;
+    let (_src, ast) = read_file(repo, file)?;
+    let it = find_item(&ast.items, name).ok_or_else(|| format!("lost anchor: const {} not found in {}", name, file))?;
+    let c = match it {
+        syn::Item::Const(c) => c,
+        _ => return Err(format!("lost anchor: {} is not a const", name)),
+    };
+    let (l0, l1) = span_lines(&c.to_token_stream());
+    fn strip(e: &syn::Expr) -> &syn::Expr {
+        match e {
+            syn::Expr::Reference(r) => strip(&r.expr),
+            syn::Expr::Paren(p) => strip(&p.expr),
+            _ => e,
+        }
+    }
+    let arr = match strip(&c.expr) {
+        syn::Expr::Array(a) => a,
+        _ => return Err(format!("unsupported construct: const {} is not an array literal", name)),
+    };
+    let mut rows = Vec::new();
+    let mut values = Vec::new();
+    for e in &arr.elems {
+        match e {
+            syn::Expr::Lit(syn::ExprLit { lit: syn::Lit::Str(s), .. }) => {
+                let v = s.value();
+                let chars: Vec<String> = v.chars().map(|ch| format!("{:?}", ch)).collect();
+                rows.push(format!("        seq![{}],", chars.join(", ")));
+                values.push(v);
+            }
+            _ => return Err(format!("unsupported construct: const {} has a non-literal element", name)),
+        }
+    }
+    let n = rows.len();
+    let text = format!(
+        "pub open spec fn {name}_spec() -> Seq<Seq<char>> {{\n    seq![\n{rows}\n    ]\n}}\n#[verifier::external_body]\npub fn {name}() -> (r: &'static [&'static Str])\n    ensures strs_view(r@) == {name}_spec(), r@.len() == {n},\n{{ unimplemented!() }}\n",
+        name = name, rows = rows.join("\n"), n = n);
+    let mut counts = Counts::new();
+    bump(&mut counts, "R12.strtable");
+    Ok(json!({"ok": true, "kind": "strtable", "name": name, "file": file, "line_start": l0, "line_end": l1,
+              "text": text, "values": values, "rules": counts}))
+}
+
 fn handle_toks(req: &Value) -> Result<Value, String> {
     let text = req["text"].as_str().ok_or("toks: missing text")?;
     let ts: TokenStream = text.parse().map_err(|e| format!("toks: cannot tokenize: {}", e))?;
@@ -255,6 +301,7 @@ fn main() {
             "fn" => handle_fn(&repo, &item, &req),
             "type" => handle_type(&repo, &item, &req),
             "toks" => handle_toks(&item),
+            "strtable" => handle_strtable(&repo, &item),
             "census" => handle_census(&repo, &item),
             _ => Err(format!("unknown item kind {:?}", kind)),
         };
